@@ -223,6 +223,10 @@ func ruleCopyAll(w *World, r *Report) {
 				if !isRange || !isLoadOfParamField(rg.X, src, i) {
 					return
 				}
+				// every element: the update executes on every iteration (no filtered entries)
+				if !loopVisitsAll(nx.Block(), mu.Block()) {
+					return
+				}
 				ok = true
 			})
 			r.Check(ok, rule, pos, name, what, "dst."+f.Name()+"[k] = v under `for k, v := range src."+f.Name()+"`",
@@ -244,7 +248,18 @@ func ruleCopyAll(w *World, r *Report) {
 				// appended elements originate from src.<field>: either src.F... directly or a one-element
 				// varargs array filled from a range element of src.F
 				if sliceDerivedFromParamField(call.Call.Args[1], src, i) {
-					ok = true
+					// inside a loop the append must execute on every iteration
+					every := true
+					if addr, okl := isLoad(firstElemOf(call.Call.Args[1])); okl {
+						if ia, oki := addr.(*ssa.IndexAddr); oki {
+							if hdr, okh := rangeIndexHeader(ia.Index, ia.X); okh {
+								every = loopVisitsAll(hdr, call.Block())
+							}
+						}
+					}
+					if every {
+						ok = true
+					}
 				}
 			})
 			r.Check(ok, rule, pos, name, what, "dst."+f.Name()+" = append(dst."+f.Name()+", elements of src."+f.Name()+")",
@@ -369,6 +384,28 @@ func ruleCopyAll(w *World, r *Report) {
 	} else {
 		r.Unresolved(rule, "ExtendConf option not found")
 	}
+}
+
+// firstElemOf: the value stored into the one-element varargs array behind a slice (nil if not of that shape).
+func firstElemOf(v ssa.Value) ssa.Value {
+	sl, ok := v.(*ssa.Slice)
+	if !ok {
+		return nil
+	}
+	al, ok := sl.X.(*ssa.Alloc)
+	if !ok {
+		return nil
+	}
+	for _, ref := range referrers(al) {
+		if ia, ok := ref.(*ssa.IndexAddr); ok {
+			for _, ref2 := range referrers(ia) {
+				if st, ok := ref2.(*ssa.Store); ok && st.Addr == ssa.Value(ia) {
+					return st.Val
+				}
+			}
+		}
+	}
+	return nil
 }
 
 func isParamFieldAddr(v ssa.Value, p *ssa.Parameter, field int) bool {
@@ -605,6 +642,8 @@ var c08Witnesses = []Witness{
 		{File: "compiler.go", Old: "	for k, v := range src.CostsMap {\n		dst.CostsMap[k] = v\n	}", New: "	dst.CostsMap = src.CostsMap"}}},
 	{Name: "copyconfig-forgets-costs-map", Rule: "R-COPYALL", Edits: []Edit{
 		{File: "compiler.go", Old: "	for k, v := range src.CostsMap {\n		dst.CostsMap[k] = v\n	}\n", New: ""}}},
+	{Name: "copyconfig-skips-zero-costs", Rule: "R-COPYALL", Edits: []Edit{
+		{File: "compiler.go", Old: "	for k, v := range src.CostsMap {\n		dst.CostsMap[k] = v\n	}", New: "	for k, v := range src.CostsMap {\n		if v == 0 {\n			continue\n		}\n		dst.CostsMap[k] = v\n	}"}}},
 	{Name: "new-config-field-not-copied", Rule: "R-COPYALL", Edits: []Edit{
 		{File: "compiler.go", Old: "	StatelessOperators []string\n}", New: "	StatelessOperators []string\n\n	// MaxDepth limits nesting\n	MaxDepth int\n}"}}},
 	{Name: "optimizer-cache-in-package-map", Rule: "R-GLOBALS", Edits: []Edit{
